@@ -232,7 +232,12 @@ def check_property(prop, tier, seed):
         if id(k) not in seen_k:
             seen_k.add(id(k))
             n = sum(1 for k2, _ in sweep["known"] if k2 is k)
-            kf_lines.append((k, {"label": k.get("label") or "witness sweep", "fn": k.get("fn") or fi["call"], "site": f"{n} probe(s) on the real crate, e.g. {fi['id']} -> {fi['outcome'][:40]}"}))
+            note = f"{n} probe(s) on the real crate, e.g. {fi['id']} -> {fi['outcome'][:40]}"
+            prev = next((f0 for k0, f0 in kf_lines if k0.get("what") == k.get("what")), None)
+            if prev is not None:
+                prev["site"] = f"{prev.get('site')}; {note}"
+            else:
+                kf_lines.append((k, {"label": k.get("label") or "witness sweep", "fn": k.get("fn") or fi["call"], "site": note}))
     # ---- evidence
     nfun = sum(len(r["functions"]) for r in results.values() if not isinstance(r, Undecided))
     verified = sum(r["verified"] for r in results.values() if not isinstance(r, Undecided))
